@@ -47,8 +47,12 @@ PROPS: Dict[str, Dict[str, Any]] = {
                          "src_set_sync", "src_set_async", "src_utuple_sync", "src_utuple_async", "src_seq_inits",
                          "setSync_eq", "setAsync_eq", "utupleSync_eq", "utupleAsync_eq", "qforFold2_items",
                          "qLoopBodySet_exec", "qLoopBodyTup_exec", "qTailSet_exec", "qTailTup_exec", "qGate_exec",
-                         "qPredsSync_exec", "qAsyncPreds_exec_pe", "qAsyncPreds_exec_le"],
-            "modules": ["KodaModel.Properties.C03", "KodaModel.Properties.C03Src", "KodaModel.Properties.C03Seq"],
+                         "qPredsSync_exec", "qAsyncPreds_exec_pe", "qAsyncPreds_exec_le",
+                         "src_ntuple_sync", "src_ntuple_async", "src_ntuple_init", "src_ntuple_generic", "ntupleSync_eq",
+                         "ntupleAsync_eq", "nGate_exec", "nArity_exec", "nforFold3_fields", "nLoopBody_exec", "nFinal_exec",
+                         "nTail_exec"],
+            "modules": ["KodaModel.Properties.C03", "KodaModel.Properties.C03Src", "KodaModel.Properties.C03Seq",
+                        "KodaModel.Properties.C03NTuple"],
             "level_note": "the list validator is tied to the source twice: (1) TRANSLATOR - harness/pysrc.py rewrites "
                           "Generated/ListSrc.lean from the AST of ListValidator._validate_to_tuple / _validate_to_tuple_async "
                           "(list.py) on every run; src_list_sync / src_list_async prove that interpreting the translated "
@@ -60,7 +64,10 @@ PROPS: Dict[str, Dict[str, Any]] = {
                           "(Generated/SeqSrc.lean, KodaModel/PySeq.lean: also the direct dispatch on _item_validator_is_tuple, "
                           "conditional expressions, set() / .add with TypeError on an unhashable payload, tuple(...)) and "
                           "src_set_sync / src_set_async / src_utuple_sync / src_utuple_async prove them equal to seqStep .set / "
-                          ".utuple; (2) the correspondence stream.  N-tuples and maps: hand-modelled, correspondence only",
+                          ".utuple; NTupleValidator likewise (Generated/NTupleSrc.lean, KodaModel/PyNTuple.lean: the loop over "
+                          "enumerate(zip(wrapped fields, value)), the validator's own ExactItemCount, the whole-object check) with "
+                          "src_ntuple_sync / src_ntuple_async = ntupleStep; (2) the correspondence stream.  Maps: hand-modelled, "
+                          "correspondence only",
             "stream": "core", "opts": {"salt": "c03", "gen": ["streams", "gen_collection_case"]},
             "quick_n": 6000, "thorough_n": 100000, "fields": ["out", "trace"]},
     "C04": {"theorems": ["recLoop_of_run", "recLoop_to_run", "RecRun.errs_length", "RecRun.no_errs_iff", "C04_pre_first",
